@@ -291,7 +291,7 @@ func init() {
 
 	actorOverlay := []Inject{{RepoRel: "internal/actor/zz_verif_export.go", Src: "overlay/actor_export.go.txt"}}
 	registry["C09"] = &Check{
-		Rule: "C08's trees (2-7 actors, every decision x strategy, providers, failing OnLaunch incarnations) plus failing restart hooks (OnPreRestart / OnRestarted / OnPrelaunch-on-restart, by error or panic); 1-3 bursts of 3-12 messages queued behind a gated handler with the failing message at a drawn position (optionally a second failing message), bursts released one after the other or together (concurrent failures of several actors); at quiescence probes are sent to every live actor, zombies are optionally killed. Oracle: white-box IsPaused / lifecycle state of every registered actor (overlay accessor) + conservation and order of the queued burst + delivery to a surviving target + probes handled exactly once + zombie clauses (no user code after the failed hook, no termination notice, released by Kill with exactly one OnKilled to its parent). Non-trivial = a message was queued behind the failing one or the target survived the failure. Distinct = hash of the case. Unit supwindow (generator-owned schedule): a supervisor s (one-for-one or one-for-all, 1-3 drawn decisions) with children x (optionally with a provider and a grandchild) and y under a drawn system strategy; x fails (panic or Failed) with 0-3 messages queued behind; one of s, x, y is parked at a drawn statement boundary of what follows (window points inserted at check time into copies of context.go: failed / onSupervise / onRestart / onKill / doKill / onCommand, supervision_context.go and killed_handler.go; the index is folded into the number of points the actor really passes) while the rest of the system runs ahead and 0-4 outside operations happen (kill or graceful kill of x, y, s or the grandchild, a second failure, ordinary mail); after the release 0-3 more. Oracle: at quiescence no registered non-zombie actor is paused or in a state other than running, a message sent afterwards to every address is handled exactly once by a living actor / handled or dead-lettered exactly once otherwise, every message sent in between ended in exactly one place. Non-trivial there = an actor was parked.",
+		Rule: "C08's trees (2-7 actors, every decision x strategy, providers, failing OnLaunch incarnations) plus failing restart hooks (OnPreRestart / OnRestarted / OnPrelaunch-on-restart, by error or panic); 1-3 bursts of 3-12 messages queued behind a gated handler with the failing message at a drawn position (optionally a second failing message), bursts released one after the other or together (concurrent failures of several actors); at quiescence probes are sent to every live actor, zombies are optionally killed. Oracle: white-box IsPaused / lifecycle state of every registered actor (overlay accessor) + conservation and order of the queued burst + delivery to a surviving target + probes handled exactly once + zombie clauses (no user code after the failed hook, no termination notice, released by Kill with exactly one OnKilled to its parent). Non-trivial = a message was queued behind the failing one or the target survived the failure. Distinct = hash of the case. Unit supwindow (generator-owned schedule): a supervisor s (one-for-one or one-for-all, 1-3 drawn decisions) with children x (optionally with a provider and a grandchild) and y under a drawn system strategy; x fails (panic or Failed) with 0-3 messages queued behind; one of s, x, y is parked at a drawn statement boundary of what follows (window points inserted at check time into copies of context.go: failed / onSupervise / onRestart / onKill / doKill / onCommand, supervision_context.go and killed_handler.go; the index is folded into the number of points the actor really passes) while the rest of the system runs ahead and 0-4 outside operations happen (kill or graceful kill of x, y, s or the grandchild, a second failure, ordinary mail); after the release 0-3 more. Oracle: at quiescence no registered non-zombie actor is paused or in a state other than running, a message sent afterwards to every address is handled exactly once by a living actor / handled or dead-lettered exactly once otherwise, every message sent in between ended in exactly one place. Non-trivial there = an actor was parked. Unit combo: an actor assembled with NewComplexCombinationActor from 1-4 components, each with or without OnPreRestart / OnRestarted / OnPrelaunch hooks that succeed or return an error on restart; a failure answered by Restart, then two more messages; reference model: hooks in component order up to the first failure, any failing OnRestarted / OnPrelaunch => zombie (no component sees OnLaunch or later mail), otherwise one OnLaunch and every later message per component, in order. Non-trivial there = a zombie with more than one component.",
 		Assumptions: []string{
 			"for a failing OnPreRestart both outcomes (restart continues / actor becomes a zombie) are accepted: the documentation and the code disagree and the property only requires 'not stuck'",
 			"white-box reads go through an overlay-only accessor file compiled into internal/actor at check time",
@@ -300,6 +300,7 @@ func init() {
 			{Name: "stuck", Pkg: "c08", Run: "^TestC09NotStuck$", QuickChecks: 8000, ThoroughChecks: 80000, ThoroughShards: 16, CaseFile: true, CrashOracle: "no-crash", Inject: actorOverlay},
 			{Name: "supwindow", Pkg: "c09w", Run: "^TestC09SupervisionWindow$", QuickChecks: 3000, QuickShards: 4, ThoroughChecks: 80000, ThoroughShards: 16, CaseFile: true, CrashOracle: "no-crash", Inject: actorOverlay,
 				Windows: map[string][]string{"internal/actor/context.go": {"failed", "onSupervise", "onRestart", "onKill", "doKill", "onCommand"}, "internal/actor/supervision_context.go": nil, "internal/actor/killed_handler.go": nil}},
+			{Name: "combo", Pkg: "c09w", Run: "^TestC09CombinationRestart$", QuickChecks: 3000, ThoroughChecks: 30000, ThoroughShards: 4, Inject: actorOverlay},
 		},
 	}
 	// C08's package also contains the C09 test file, which needs the accessor
